@@ -287,6 +287,11 @@ func (e *Env) ReloadUsers(users []UserSpec) {
 	e.SrvMux.SetServerUsers(appctlcommon.UserListToMap(list))
 }
 
+// ReloadUsersProto is ReloadUsers with full user messages (quotas, grants).
+func (e *Env) ReloadUsersProto(list []*pb.User) {
+	e.SrvMux.SetServerUsers(appctlcommon.UserListToMap(list))
+}
+
 // StartClient starts the client half of the environment.
 func (e *Env) StartClient() error {
 	if e.Cfg.RawClient {
